@@ -16,6 +16,7 @@ I2LE = z3.Function('i2le', INT, INT, BYTES)
 MODPOW = z3.Function('modpow', INT, INT, INT, INT)
 BITLEN = z3.Function('bitlen', INT, INT)
 ENC_LATIN1 = z3.Function('enc_latin1', ANY, BYTES)
+RFIND = z3.Function('rfind', BYTES, BYTES, INT)
 
 
 def val(st, v):
@@ -145,7 +146,7 @@ def b_len(E, st, args, kw):
     if isinstance(v, (bytes, str, tuple, frozenset, range)):
         return val(st, len(v))
     if isinstance(v, SBytes):
-        return val(st, mk_int(z3.Length(v.t)))
+        return val(st, mk_int(seq_length(E, st, v.t)))
     if isinstance(v, FrozenDict):
         return val(st, len(v.d))
     if isinstance(v, Ref):
@@ -167,6 +168,27 @@ def b_len(E, st, args, kw):
     if isinstance(v, SOpaque):
         raise Unsupported('len of opaque value')
     return rz(st, TypeError, 'object has no len()')
+
+
+def seq_length(E, st, t):
+    """Length(t), written without the sequence operator where the path condition fixes it"""
+    if z3.is_app(t):
+        k = t.decl().kind()
+        if k == z3.Z3_OP_SEQ_EXTRACT:
+            s0, a, l = t.arg(0), t.arg(1), t.arg(2)
+            if E.implied(st, z3.And(a >= 0, l >= 0, a + l <= z3.Length(s0))):
+                return z3.simplify(l)
+        elif k == z3.Z3_OP_SEQ_CONCAT:
+            parts = [seq_length(E, st, c) for c in t.children()]
+            r = parts[0]
+            for x in parts[1:]:
+                r = r + x
+            return z3.simplify(r)
+        elif k == z3.Z3_OP_SEQ_UNIT:
+            return z3.IntVal(1)
+        elif k == z3.Z3_OP_SEQ_EMPTY:
+            return z3.IntVal(0)
+    return z3.Length(t)
 
 
 def object_len(E, st, v, h):
@@ -893,7 +915,17 @@ def m_find(E, st, base, a, k, last=False, must=False):
     if isinstance(base, bytes) and isinstance(sub, (bytes, int)) and len(a) == 1:
         r = (base.rfind if last else base.find)(sub)
     else:
-        r = mk_int(z3.LastIndexOf(zs, zsub) if last else z3.IndexOf(zs, zsub, start))
+        if last:
+            # uninterpreted symbol + the ground facts that define "last occurrence" (z3's seq.last_indexof is weak)
+            t = RFIND(zs, zsub)
+            n, m = z3.Length(zs), z3.Length(zsub)
+            st.fact(t >= -1)
+            st.fact(z3.Implies(t >= 0, z3.And(t + m <= n, z3.SubSeq(zs, t, m) == zsub)))
+            st.fact(z3.Implies(t == -1, z3.Not(z3.Contains(zs, zsub))))
+            st.fact(z3.Implies(t >= 0, z3.Not(z3.Contains(z3.SubSeq(zs, t + 1, n - t - 1), zsub))))
+            r = mk_int(t)
+        else:
+            r = mk_int(z3.IndexOf(zs, zsub, start))
     if must:
         bad, ok = E.split(st, zint(r) < 0)
         outs = []
